@@ -51,7 +51,10 @@ Definition runs_list (iterations : Z) (prod : list kw) : list run :=
 (* ---- the model class BM ---- *)
 (* p_ic / p_sc: how many times the model collects at construction / inside every step; between two
    collects made at the same model.steps it changes a model-level value and every agent *)
-Record params := { p_n : Z; p_stop : option Z; p_ic : nat; p_sc : nat; p_ar : bool; p_churn : bool; p_k : Z; p_mc : Z }.
+Record params := { p_n : Z; p_stop : option Z; p_ic : nat; p_sc : nat; p_ar : bool; p_churn : bool; p_k : Z; p_mc : Z; p_pat : option Z; p_mr : bool }.
+(* p_mr: model reporters on / off (a collector with agent reporters only) *)
+(* p_pat: an explicit collection pattern overriding p_ic / p_sc: base-4 digit s of the number = how many times the model
+   collects at step s (digit 0: at construction); steps beyond the digits are not collected - gaps and duplicates at will *)
 (* p_mc: agent churn BETWEEN two collects of one step: 1 = every agent is removed, 2 = an agent is created,
    3 = the first agent is removed, 4 = every agent is removed when the model has just stopped (final step) *)
 Definition kwget (k : kw) (name def : Z) : Z := match aget name k with Some v => v | None => def end.
@@ -59,10 +62,13 @@ Definition params_of (k : kw) : params :=
   {| p_n := kwget k 0 2;
      p_stop := match aget 1 k with Some v => if v =? -1 then None else Some v | None => None end;
      p_ic := Z.to_nat (kwget k 2 0); p_sc := Z.to_nat (kwget k 3 1); p_ar := negb (kwget k 4 1 =? 0);
-     p_churn := negb (kwget k 5 0 =? 0); p_k := kwget k 6 0; p_mc := kwget k 9 0 |}.
+     p_churn := negb (kwget k 5 0 =? 0); p_k := kwget k 6 0; p_mc := kwget k 9 0;
+     p_pat := match aget 10 k with Some v => if v <=? -1000 then Some (- v - 1000) else None | None => None end;
+     p_mr := negb (kwget k 11 1 =? 0) |}.
+(* (the pattern q travels as the value code -(1000 + q): non-negative codes from 1000 on name pass-through objects) *)
 
 Definition bm_cfg (p : params) : config :=
-  {| c_mreps := [(0, MRFun false FSteps); (1, MRMethod (FSum 0)); (2, MRAttr 1); (3, MRAttr 2)];
+  {| c_mreps := if p_mr p then [(0, MRFun false FSteps); (1, MRMethod (FSum 0)); (2, MRAttr 1); (3, MRAttr 2)] else [];
      c_areps := if p_ar p then [(0, ARFun (AStepsAttr 0)); (1, ARAttr 0)] else [];
      c_treps := []; c_tables := [] |}.
 
@@ -101,10 +107,16 @@ Fixpoint bm_collects (p : params) (c : nat) (m : bm) : bm :=
            bm_collect p (match j with O => m1 | S _ => bm_mutate p m1 end)
   end.
 
+Definition collect_count (p : params) (default : nat) (step : Z) : nat :=
+  match p_pat p with
+  | Some q => Z.to_nat ((q / 4 ^ step) mod 4)
+  | None => default
+  end.
+
 Definition bm_init (p : params) : bm :=
   let w0 := wstep (wstep world_init (SetAttr 1 (p_k p))) (SetAttr 2 0) in
   let w2 := iter (Z.to_nat (p_n p)) (fun w => wstep w (Create 0 [(0, p_k p)])) w0 in
-  bm_collects p (p_ic p) {| b_w := w2; b_d := dc_init (bm_cfg p); b_running := true; b_trace := [] |}.
+  bm_collects p (collect_count p (p_ic p) 0) {| b_w := w2; b_d := dc_init (bm_cfg p); b_running := true; b_trace := [] |}.
 
 Definition bm_step (p : params) (m : bm) : bm :=   (* model.step(): the wrapper increments steps first *)
   let w1 := wstep (b_w m) Step in
@@ -117,7 +129,7 @@ Definition bm_step (p : params) (m : bm) : bm :=   (* model.step(): the wrapper 
            | Some s => if s <=? w_steps w4 then false else b_running m
            | None => b_running m
            end in
-  bm_collects p (p_sc p) {| b_w := w4; b_d := b_d m; b_running := r; b_trace := b_trace m |}.
+  bm_collects p (collect_count p (p_sc p) (w_steps w4)) {| b_w := w4; b_d := b_d m; b_running := r; b_trace := b_trace m |}.
 
 (* while model.running and model.steps < max_steps: model.step() *)
 Fixpoint run_loop (fuel : nat) (p : params) (max_steps : Z) (m : bm) : bm :=
